@@ -443,7 +443,7 @@ func (c *Ctx) wrapperInner(sel string) (string, bool) {
 	n := 0
 	okAll := true
 	for _, fn := range c.LibFuncs() {
-		allInstrs(fn, false, func(in ssa.Instruction) {
+		rawInstrs(fn, false, func(in ssa.Instruction) {
 			s, _, st, ok := storeSel(in)
 			if !ok || s != sel {
 				return
